@@ -226,3 +226,177 @@ Proof.
   - destruct H14W as [->|H14W]; [lia|].
     destruct (N.leb_spec x 16383); destruct (N.ltb_spec x (2 ^ W)); try lia; reflexivity.
 Qed.
+
+Lemma mode2_dec W p r0 known (f : N -> bool) :
+  (W = 16 /\ f = (fun x => (16383 <? x) && (x <? 65536)) \/
+   32 <= W /\ f = (fun x => (16383 <? x) && (x <=? N.shiftr u32max 2))) ->
+  oview (runo (x <- prefixed p 3 ;; if f x then Ret x else Fail) known r0) =
+  of_opt (match take 3 r0 with
+          | Some (b, r) => let x := le_dec (p :: b) / 4 in
+                           if (2 ^ 14 <=? x) && (x <? 2 ^ W) then Some (x, r) else None
+          | None => None end).
+Proof.
+  intros Hf. unfold prefixed. rewrite runo_bind, runo_read_bind. change (N.to_nat 3) with 3%nat.
+  destruct (take 3 r0) as [[b r]|] eqn:Et; [|reflexivity].
+  apply take_inv in Et as [-> Hlen]. cbn [runo]. rewrite shr2. cbv zeta.
+  pose proof (le_dec_bound (p :: b)) as Hb. cbn [length] in Hb. rewrite Hlen in Hb.
+  change (256 ^ N.of_nat 4) with 4294967296 in Hb.
+  set (x := le_dec (p :: b) / 4) in *. assert (Hx: x < 1073741824) by (unfold x; lia).
+  rewrite E14.
+  destruct Hf as [[-> ->]|[HW ->]].
+  - change (2 ^ 16) with 65536.
+    destruct (N.ltb_spec 16383 x); destruct (N.leb_spec 16384 x); try lia; cbn [andb]; [|reflexivity].
+    destruct (N.ltb_spec x 65536); reflexivity.
+  - change (N.shiftr u32max 2) with 1073741823.
+    assert (2 ^ 32 <= 2 ^ W) by (apply N.pow_le_mono_r; lia). change (2 ^ 32) with 4294967296 in *.
+    destruct (N.ltb_spec 16383 x); destruct (N.leb_spec 16384 x); try lia; cbn [andb]; [|reflexivity].
+    destruct (N.leb_spec x 1073741823); destruct (N.ltb_spec x (2 ^ W)); try lia; reflexivity.
+Qed.
+
+(* big-integer mode with one bulk read of n bytes *)
+Lemma big_read_dec W n r0 known (lo : N) :
+  8 * n <= W -> 4 <= n -> lo + 1 = N.max (256 ^ (n - 1)) (2 ^ 30) ->
+  oview (runo (b <- read n ;; let x := le_dec b in if lo <? x then Ret x else Fail) known r0) =
+  of_opt (match take (N.to_nat n) r0 with
+          | Some (b, r) => let x := le_dec b in
+              if (2 ^ 30 <=? x) && (256 ^ (N.of_nat (N.to_nat n) - 1) <=? x) && (x <? 2 ^ W)
+              then Some (x, r) else None
+          | None => None end).
+Proof.
+  intros HW Hn Hlo. rewrite runo_read_bind.
+  destruct (take (N.to_nat n) r0) as [[b r]|] eqn:Et; [|reflexivity].
+  apply take_inv in Et as [-> Hlen]. cbv zeta. rewrite N2Nat.id.
+  pose proof (le_dec_bound b) as Hb. rewrite Hlen, N2Nat.id in Hb.
+  assert (HnW: 256 ^ n <= 2 ^ W) by (rewrite pow256; apply N.pow_le_mono_r; lia).
+  rewrite E30 in *.
+  set (x := le_dec b) in *. set (P := 256 ^ (n - 1)) in *.
+  destruct (N.ltb_spec lo x); cbn [runo oview].
+  - destruct (N.leb_spec 1073741824 x); [|lia].
+    destruct (N.leb_spec P x); [|lia]. destruct (N.ltb_spec x (2 ^ W)); [|lia]. reflexivity.
+  - destruct (N.leb_spec 1073741824 x); cbn [andb]; [|reflexivity].
+    destruct (N.leb_spec P x); [lia|]. reflexivity.
+Qed.
+
+Lemma big_loop_dec W n r0 known (lo : N) :
+  8 * n <= W -> 4 <= n -> lo + 1 = N.max (256 ^ (n - 1)) (2 ^ 30) ->
+  oview (runo (bs <- rep_nat (N.to_nat n) read_byte ;;
+               let x := lor_bytes 0 bs in if lo <? x then Ret x else Fail) known r0) =
+  of_opt (match take (N.to_nat n) r0 with
+          | Some (b, r) => let x := le_dec b in
+              if (2 ^ 30 <=? x) && (256 ^ (N.of_nat (N.to_nat n) - 1) <=? x) && (x <? 2 ^ W)
+              then Some (x, r) else None
+          | None => None end).
+Proof.
+  intros HW Hn Hlo. rewrite <- (big_read_dec W n r0 known lo HW Hn Hlo).
+  rewrite runo_bind, runo_rep_read_byte, runo_read_bind.
+  destruct (take (N.to_nat n) r0) as [[b r]|]; [|reflexivity].
+  cbv zeta. now rewrite lor_bytes_0.
+Qed.
+
+Lemma mode0_dec W pn : 8 <= W -> pn < 256 -> N.shiftr pn 2 = pn / 4.
+Proof. intros _ _. apply shr2. Qed.
+
+Lemma runo_read_byte_bind A (f : byte -> prog A) known bs :
+  runo (p <- read_byte ;; f p) known bs =
+  match bs with [] => OErr [] | p :: r => runo (f p) known r end.
+Proof. cbn [read_byte bindp runo]. destruct bs; reflexivity. Qed.
+
+Lemma pow256_ge n : 4 <= n -> 2 ^ 30 <= 256 ^ n.
+Proof.
+  intros H. assert (256 ^ 4 <= 256 ^ n) by (apply N.pow_le_mono_r; lia).
+  change (256 ^ 4) with 4294967296 in *. rewrite E30. lia.
+Qed.
+
+Ltac fin := try reflexivity; rewrite ?andb_false_r; try reflexivity; cbn [andb]; try reflexivity.
+
+Theorem dec_compact_spec B known bs : okwidth B ->
+  oview (runo (dec_compact B) known bs) = of_opt (sdec (8 * B) bs).
+Proof.
+  intros HB. unfold dec_compact.
+  destruct HB as [->|[->|[->|HB]]].
+  - (* u8 *)
+    change (1 =? 1) with true. cbv iota. unfold dec_c8. rewrite runo_read_byte_bind.
+    destruct bs as [|p r0]; [reflexivity|]. cbv zeta. unfold sdec.
+    pose proof (Byte.to_N_bounded p) as Hp. set (pn := Byte.to_N p) in *.
+    destruct (mod4_cases pn) as [Em|[Em|[Em|Em]]]; rewrite Em.
+    + cbn [runo oview of_opt]. now rewrite shr2.
+    + change (8 * 1) with 8. apply (mode1_dec 8 p r0 known 255); [lia|left; auto].
+    + cbn [runo oview].
+      destruct (take 3 r0) as [[b r]|] eqn:Et; [|reflexivity].
+      apply take_inv in Et as [-> Hlen]. cbv zeta.
+      (* x >= 2^14 can never be < 2^8 *)
+      rewrite E14. change (2 ^ (8 * 1)) with 256.
+      destruct (N.leb_spec 16384 (le_dec (p :: b) / 4)); destruct (N.ltb_spec (le_dec (p :: b) / 4) 256); try lia; reflexivity.
+    + cbn [runo oview].
+      destruct (take (N.to_nat (pn / 4 + 4)) r0) as [[b r]|] eqn:Et; [|reflexivity].
+      cbv zeta. rewrite E30. change (2 ^ (8 * 1)) with 256.
+      destruct (N.leb_spec 1073741824 (le_dec b)); destruct (N.ltb_spec (le_dec b) 256); try lia; fin.
+  - (* u16 *)
+    change (2 =? 1) with false. change (2 =? 2) with true. cbv iota. unfold dec_c16.
+    rewrite runo_read_byte_bind.
+    destruct bs as [|p r0]; [reflexivity|]. cbv zeta. unfold sdec.
+    pose proof (Byte.to_N_bounded p) as Hp. set (pn := Byte.to_N p) in *.
+    destruct (mod4_cases pn) as [Em|[Em|[Em|Em]]]; rewrite Em.
+    + cbn [runo oview of_opt]. now rewrite shr2.
+    + change (8 * 2) with 16. apply (mode1_dec 16 p r0 known 16383); [lia|right; split; [auto|lia]].
+    + change (8 * 2) with 16. apply (mode2_dec 16 p r0 known). left; auto.
+    + cbn [runo oview].
+      destruct (take (N.to_nat (pn / 4 + 4)) r0) as [[b r]|] eqn:Et; [|reflexivity].
+      cbv zeta. rewrite E30. change (2 ^ (8 * 2)) with 65536.
+      destruct (N.leb_spec 1073741824 (le_dec b)); destruct (N.ltb_spec (le_dec b) 65536); try lia; fin.
+  - (* u32 *)
+    change (4 =? 1) with false. change (4 =? 2) with false. change (4 =? 4) with true. cbv iota.
+    unfold dec_c32. rewrite runo_read_byte_bind.
+    destruct bs as [|p r0]; [reflexivity|]. cbv zeta. unfold sdec.
+    pose proof (Byte.to_N_bounded p) as Hp. set (pn := Byte.to_N p) in *.
+    destruct (mod4_cases pn) as [Em|[Em|[Em|Em]]]; rewrite Em.
+    + cbn [runo oview of_opt]. now rewrite shr2.
+    + change (8 * 4) with 32. apply (mode1_dec 32 p r0 known 16383); [lia|right; split; [auto|lia]].
+    + change (8 * 4) with 32. apply (mode2_dec 32 p r0 known). right; split; [lia|auto].
+    + rewrite shr2. change (8 * 4) with 32.
+      destruct (N.eqb_spec (pn / 4) 0) as [E0|E0].
+      * rewrite E0. change (0 + 4) with 4.
+        apply (big_read_dec 32 4 r0 known); [lia|lia|reflexivity].
+      * cbn [runo oview].
+        destruct (take (N.to_nat (pn / 4 + 4)) r0) as [[b r]|] eqn:Et; [|reflexivity].
+        apply take_inv in Et as [_ Hlen]. cbv zeta.
+        assert (Hlo: 256 ^ 4 <= 256 ^ (N.of_nat (N.to_nat (pn / 4 + 4)) - 1)) by (apply N.pow_le_mono_r; lia).
+        change (256 ^ 4) with 4294967296 in Hlo. change (2 ^ 32) with 4294967296.
+        destruct (N.leb_spec (256 ^ (N.of_nat (N.to_nat (pn / 4 + 4)) - 1)) (le_dec b));
+          destruct (N.ltb_spec (le_dec b) 4294967296); try lia; fin.
+  - (* u64 / u128 *)
+    assert (HB8: 8 <= B) by (destruct HB; subst; lia).
+    destruct (N.eqb_spec B 1) as [?|_]; [lia|]. destruct (N.eqb_spec B 2) as [?|_]; [lia|]. destruct (N.eqb_spec B 4) as [?|_]; [lia|].
+    unfold dec_cbig. rewrite runo_read_byte_bind.
+    destruct bs as [|p r0]; [reflexivity|]. cbv zeta. unfold sdec.
+    pose proof (Byte.to_N_bounded p) as Hp. set (pn := Byte.to_N p) in *.
+    destruct (mod4_cases pn) as [Em|[Em|[Em|Em]]]; rewrite Em.
+    + cbn [runo oview of_opt]. now rewrite shr2.
+    + apply (mode1_dec (8 * B) p r0 known 16383); [lia|right; split; [auto|lia]].
+    + apply (mode2_dec (8 * B) p r0 known). right; split; [lia|auto].
+    + rewrite shr2. set (n := pn / 4 + 4).
+      assert (Hn4: 4 <= n) by (unfold n; lia).
+      destruct (N.eqb_spec n 4) as [E4|E4].
+      { rewrite E4. apply (big_read_dec (8 * B) 4 r0 known); [lia|lia|reflexivity]. }
+      destruct (N.eqb_spec n 8) as [E8|E8].
+      { rewrite E8. apply (big_read_dec (8 * B) 8 r0 known); [lia|lia|reflexivity]. }
+      destruct ((B =? 16) && (n =? 16)) eqn:E16.
+      { apply andb_prop in E16 as [EB En]. apply N.eqb_eq in EB, En. rewrite En. subst B.
+        apply (big_read_dec (8 * 16) 16 r0 known); [lia|lia|reflexivity]. }
+      destruct (N.ltb_spec B n) as [HBn|HBn].
+      { (* more bytes than the width: the value would be >= 256^(n-1) >= 2^(8B) *)
+        cbn [runo oview].
+        destruct (take (N.to_nat n) r0) as [[b r]|] eqn:Et; [|reflexivity].
+        cbv zeta. rewrite N2Nat.id.
+        assert (Hlo: 256 ^ B <= 256 ^ (n - 1)) by (apply N.pow_le_mono_r; lia).
+        rewrite pow256 in Hlo.
+        destruct (N.leb_spec (256 ^ (n - 1)) (le_dec b));
+          destruct (N.ltb_spec (le_dec b) (2 ^ (8 * B))); try lia; fin. }
+      apply (big_loop_dec (8 * B) n r0 known); [lia|lia|].
+      assert (Hge: 2 ^ 30 <= 256 ^ (n - 1)) by (apply pow256_ge; lia).
+      rewrite N.max_l by lia.
+      unfold umax. rewrite pow2_sub1_shiftr by lia.
+      replace (8 * B - (B - n + 1) * 8) with (8 * (n - 1)) by lia.
+      rewrite <- pow256.
+      assert (0 < 256 ^ (n - 1)) by (apply N.neq_0_lt_0, N.pow_nonzero; lia). lia.
+Qed.
